@@ -86,7 +86,10 @@ def _surf_shapes(tier):
             dict(pu=2, pv=2, mu=[], mv=[1], dirs='v', r=2, rational=False),
             dict(pu=2, pv=1, mu=[1], mv=[1], dirs='uv', r=1, rational=False),
             dict(pu=1, pv=2, mu=[], mv=[], dirs='u', r=1, rational=True),
-            dict(pu=2, pv=2, mu=[], mv=[], dirs='v', r=1, rational=True)]
+            dict(pu=2, pv=2, mu=[], mv=[], dirs='v', r=1, rational=True),
+            # different degrees per direction with insertion counts at / above the limit of the selected direction
+            dict(pu=1, pv=2, mu=[], mv=[1], dirs='v', r=2, rational=False), dict(pu=2, pv=1, mu=[1], mv=[], dirs='v', r=2, rational=False),
+            dict(pu=1, pv=2, mu=[1], mv=[], dirs='u', r=2, rational=False)]
     if tier == 'thorough':
         base += [dict(pu=3, pv=2, mu=[1], mv=[1], dirs='uv', r=2, rational=False),
                  dict(pu=3, pv=3, mu=[2], mv=[1], dirs='u', r=1, rational=False),
@@ -116,7 +119,15 @@ def surface_insert(ctx, pu, pv, mu, mv, dirs, r, rational):
     s_u = sum(1 for k in U if x == k)
     s_v = sum(1 for k in V if x == k)
     if ('u' in dirs and r > pu - s_u) or ('v' in dirs and r > pv - s_v):
-        ctx.skip('multiplicity would exceed the degree (rejected case is covered at curve level)')
+        if len(dirs) == 2:
+            ctx.skip('multiplicity would exceed the degree in one of two directions (single-direction rejection is checked)')
+        # a single-direction insertion exceeding the allowed multiplicity (degree of THAT direction) is rejected
+        ops = ctx.geomdl('operations')
+        exc = ctx.geomdl('exceptions').GeomdlException
+        prm = [x if 'u' in dirs else None, x if 'v' in dirs else None]
+        num = [r if 'u' in dirs else 0, r if 'v' in dirs else 0]
+        ctx.check_raises('reject.operations', exc, ops.insert_knot, copy.deepcopy(srf), prm, num)
+        return
     kw = {}
     if 'u' in dirs:
         kw['u'] = x
@@ -147,7 +158,9 @@ def _vol_shapes(tier):
             dict(deg=[1, 1, 1], m=[[], [], []], d=2, r=1), dict(deg=[2, 1, 1], m=[[1], [], []], d=0, r=1),
             # two insertions in one call: the inserted layers must not alias each other
             dict(deg=[2, 1, 1], m=[[], [], []], d=0, r=2), dict(deg=[1, 2, 1], m=[[], [], []], d=1, r=2),
-            dict(deg=[1, 1, 2], m=[[], [], []], d=2, r=2)]
+            dict(deg=[1, 1, 2], m=[[], [], []], d=2, r=2),
+            # the other directions have interior knots of their own: the inserted parameter may coincide with one of THEIR knots
+            dict(deg=[1, 2, 2], m=[[], [1], []], d=2, r=2), dict(deg=[2, 1, 2], m=[[1], [], [1]], d=1, r=1)]
     if tier == 'thorough':
         base += [dict(deg=[2, 2, 1], m=[[1], [], []], d=1, r=2), dict(deg=[1, 2, 2], m=[[], [1], []], d=2, r=1),
                  dict(deg=[2, 1, 2], m=[[], [], [1]], d=2, r=2)]
